@@ -113,18 +113,10 @@ def _replay_case(ctx, e, names, doses):
     return None
 
 
-def _project(rnd, nr, ar, with_sub=True):
-    """random real input -> real Screen -> tokens (a TraceEncoding trace)"""
-    pool = rnd.choice(NAMESETS) + rnd.sample(["x", "X", "drugA", "drugB", "α", "à", "\U00010348", "0", "-"], 3)
-    dpool = rnd.sample([-2.0, -5e-324, -0.0, 0.0, 5e-324, 1e-310, 1e-9, 0.5, 1.0, 1.0 + 2 ** -52, 10.0, 1e300, -1e-300], 6)
-    ctl = rnd.choice(pool + [ABSENT, ""])
-    tn = np.array([[rnd.choice(pool) for _ in range(ar)] for _ in range(nr)], dtype=str).reshape(nr, ar)
-    td = np.array([[rnd.choice(dpool) for _ in range(ar)] for _ in range(nr)], dtype=float).reshape(nr, ar)
-    spool = rnd.sample(pool, 3)
-    if rnd.random() < 0.3:
-        spool = [spool[0], spool[0] + " ", " " + spool[0]]      # names that differ only by surrounding whitespace are different names
-    sn = np.array([rnd.choice(spool) for _ in range(nr)], dtype=str)
-    pn = np.array([rnd.choice(spool + ["plate"]) for _ in range(nr)], dtype=str)
+def _trace(tn, td, sn, pn, ctl, rnd, sub_idx=None, drop=0, sdrop=0):
+    """real Screen for the given arrays -> tokens (a TraceEncoding trace); optionally a second construction of the rows sub_idx with
+    the mappings the first one produced (entry `drop` / `sdrop` withheld)"""
+    nr, ar = tn.shape
     st, scr = _screen(tn, td, sn, pn, ctl)
     if st != "ok":
         return {"raised": scr, "arity": ar}
@@ -158,26 +150,61 @@ def _project(rnd, nr, ar, with_sub=True):
          "samples": [stok[x] for x in sn], "plates": [stok[x] for x in pn], "got": got(scr),
          "hassub": False, "sub": [], "drop": 0, "sdrop": 0,
          "subgot": {"ok": False, "ids": [], "mapping": [], "sids": [], "smap": [], "nut": 0}}
-    if with_sub and nr >= 2:
-        idx = sorted(rnd.sample(range(nr), rnd.randint(1, nr - 1)))
-        drop = rnd.choice([0, 0, rnd.randint(1, len(scr.treatment_mapping[0]))])
-        sdrop = rnd.choice([0, 0, 0, rnd.randint(1, len(scr.sample_mapping[0]))])
+    if sub_idx:
+        idx = list(sub_idx)
 
         def wh(arrs, d):
-            if d == 0:
+            if d == 0 or d > len(arrs[0]):
                 return tuple(a.copy() for a in arrs)
             keep = [i for i in range(len(arrs[0])) if i != d - 1]
             return tuple(a[keep] for a in arrs)
-        st2, s2 = _screen(tn[idx], td[idx], sn[idx], pn[idx], ctl, tmap=wh(scr.treatment_mapping, drop),
-                          smap=wh(scr.sample_mapping, sdrop))
+        st2, s2 = _screen(tn[idx], td[idx], sn[idx], pn[idx], ctl, tmap=wh(scr.treatment_mapping, drop), smap=wh(scr.sample_mapping, sdrop))
         t.update({"hassub": True, "sub": [i + 1 for i in idx], "drop": drop, "sdrop": sdrop})
         if st2 == "ok":
             g = got(s2)
-            t["subgot"] = {"ok": True, "ids": g["ids"], "mapping": g["mapping"], "sids": g["sids"], "smap": g["smap"],
-                           "nut": g["nut"]}
+            t["subgot"] = {"ok": True, "ids": g["ids"], "mapping": g["mapping"], "sids": g["sids"], "smap": g["smap"], "nut": g["nut"]}
         else:
             t["subgot"]["err"] = s2
+            if not str(s2).startswith("ValueError"):
+                t["raised"] = "rejection of a supplied mapping is not a ValueError: " + str(s2)
     return t
+
+
+def _project(rnd, nr, ar, with_sub=True):
+    """random real input (unicode / empty / whitespace names, subnormal / negative / repeated doses)"""
+    pool = rnd.choice(NAMESETS) + rnd.sample(["x", "X", "drugA", "drugB", "α", "à", "\U00010348", "0", "-"], 3)
+    dpool = rnd.sample([-2.0, -5e-324, -0.0, 0.0, 5e-324, 1e-310, 1e-9, 0.5, 1.0, 1.0 + 2 ** -52, 10.0, 1e300, -1e-300], 6)
+    ctl = rnd.choice(pool + [ABSENT, ""])
+    tn = np.array([[rnd.choice(pool) for _ in range(ar)] for _ in range(nr)], dtype=str).reshape(nr, ar)
+    td = np.array([[rnd.choice(dpool) for _ in range(ar)] for _ in range(nr)], dtype=float).reshape(nr, ar)
+    spool = rnd.sample(pool, 3)
+    if rnd.random() < 0.3:
+        spool = [spool[0], spool[0] + " ", " " + spool[0]]      # names that differ only by surrounding whitespace are different names
+    sn = np.array([rnd.choice(spool) for _ in range(nr)], dtype=str)
+    pn = np.array([rnd.choice(spool + ["plate"]) for _ in range(nr)], dtype=str)
+    if with_sub and nr >= 2:
+        idx = sorted(rnd.sample(range(nr), rnd.randint(1, nr - 1)))
+        return _trace(tn, td, sn, pn, ctl, rnd, idx, rnd.choice([0, 0, rnd.randint(1, 2 * nr)]), rnd.choice([0, 0, 0, rnd.randint(1, 3)]))
+    return _trace(tn, td, sn, pn, ctl, rnd)
+
+
+def _case_trace(e, names, doses, rnd):
+    """an input TLC explored, concretised, through the same comparator"""
+    ar, rows = e["arity"], e["rows"]
+    nr = len(rows)
+    if e["mode"] == "treat":
+        tn = np.array([[names[c[0]] for c in r] for r in rows], dtype=str).reshape(nr, ar)
+        td = np.array([[doses[c[1]] for c in r] for r in rows], dtype=float).reshape(nr, ar)
+        sn = np.array(["s%d" % (i % 2) for i in range(nr)], dtype=str)
+        ctl = names[e["ctl"]] if e["ctl"] < len(names) else ABSENT
+        pn = np.array(["p"] * nr, dtype=str)
+    else:
+        tn = np.array([["x"] for _ in rows], dtype=str)
+        td = np.array([[1.0] for _ in rows], dtype=float)
+        sn = np.array([names[r] for r in rows], dtype=str)
+        ctl, pn = "", sn.copy()
+    idx = [i - 1 for i in e["sub"]] if e["sub"] else None
+    return _trace(tn, td, sn, pn, ctl, rnd, idx, e["drop"] if e["mode"] == "treat" else 0, e["drop"] if e["mode"] == "oned" else 0)
 
 
 CONFIGS_Q = [  # names, doses, arity, rows, ctls, mode, withsub
@@ -214,6 +241,7 @@ def run(ctx):
     from harness.tracecheck import validate
     rnd = random.Random(ctx.seed)
     total_cases = 0
+    traces_b = []
     for ci, c in enumerate(CONFIGS_Q if ctx.quick else CONFIGS_T):
         r = ctx.tlc("Encoding", _cfg(tlc, *c, export=False), note="exhaustive %s arity=%d rows=%d sub=%s" % (c[5], c[2], c[3], c[6]),
                     coverage=True)
@@ -227,29 +255,20 @@ def run(ctx):
         r = ctx.tlc("Encoding", _cfg(tlc, *c, export=True), note="export %s arity=%d rows=%d" % (c[5], c[2], c[3]), workers=1, count=False)
         cases = r.by_tag("enc")
         share = budget // len(exp)
-        if len(cases) > share:          # seeded sample, always keeping the cases with a sub-screen and a withheld entry
+        if len(cases) > share:
             cases = rnd.sample(cases, share)
-        stop = False
         for e in cases:
             for k in range(1 if ctx.quick else 3):
                 j = (k + total_cases) % 4
-                msg = _replay_case(ctx, e, NAMESETS[j], DOSESETS[(j + k + total_cases // 4) % 4])
+                traces_b.append(_case_trace(e, NAMESETS[j], DOSESETS[(j + k + total_cases // 4) % 4], rnd))
                 ctx.evaluations += 1
-                if msg:
-                    ctx.violation("Screen construction differs from Encoding.tla: %s" % msg,
-                                  {"kind": "case", "case": e, "names": NAMESETS[j], "doses": DOSESETS[(j + k + total_cases // 4) % 4]})
-                    stop = True
-                    break
-            if stop:
-                break
             total_cases += 1
-        ctx.traces += len(cases)
         if cases:
-            ctx.sample({"spec_to_code": cases[len(cases) // 2]})
+            ctx.sample({"spec_to_code_input": {k: cases[len(cases) // 2][k] for k in ("mode", "arity", "rows", "ctl", "sub", "drop")}})
     ctx.exhaustive = True
     ctx.extra["spec_to_code_cases"] = total_cases
     # (C) larger random inputs, real constructor, validated by TraceEncoding
-    traces = []
+    traces = list(traces_b)
     for _ in range(250 if ctx.quick else 3000):
         traces.append(_project(rnd, rnd.randint(1, 40), rnd.choice([1, 2, 2, 3])))
     _decide(ctx, traces)
@@ -258,35 +277,37 @@ def run(ctx):
 
 
 def _decide(ctx, traces):
-    from harness.tracecheck import validate
+    from harness.tracecheck import validate, selftest
     ok = []
     for t in traces:
         if "raised" in t:
             ctx.violation("Screen(...) raised on a valid input: %s" % t["raised"], {"kind": "raw", "trace": t})
         else:
             ok.append(t)
-    bad = validate(ctx, "TraceEncoding", ok, decide="Decide", next_="TNext", init="TInit", chunk=1500,
-                   constants={"Names": {0}, "Doses": {0}, "Zero": ZERO, "Arity": 1, "NRows": 1, "Ctls": {0}, "Mode": "treat",
-                              "WithSub": False, "Export": False})
+    consts = {"Names": {0}, "Doses": {0}, "Zero": ZERO, "Arity": 1, "NRows": 1, "Ctls": {0}, "Mode": "treat", "WithSub": False, "Export": False}
+    # the verdict: the clauses of C01 on the real output, whatever numbering the encoder chose
+    bad = validate(ctx, "TraceEncoding", ok, decide="Decide", next_="TNext", init="TInit", chunk=1500, constants=dict(consts, Strict=False),
+                   note="clauses of C01 on real screens")
     for i, clause in bad[:3]:
-        ctx.violation("real Screen rejected by TraceEncoding at clause '%s': %s" % (clause, json.dumps(ok[i])[:500]),
-                      {"kind": "raw", "trace": ok[i], "clause": clause})
+        ctx.violation("real Screen violates '%s': %s" % (clause, json.dumps(ok[i])[:500]), {"kind": "raw", "trace": ok[i], "clause": clause})
+    # conformance of the transcription (ids in sorted order, mapping layout): binds the exhaustive TLC result to this code
+    before = ctx.traces
+    drift = validate(ctx, "TraceEncoding", ok, decide="Decide", next_="TNext", init="TInit", chunk=1500, constants=dict(consts, Strict=True),
+                     note="equality with the transcribed encoder")
+    ctx.traces = before
+    only = [d for d in drift if d[0] not in {b[0] for b in bad}]
+    ctx.extra["model_drift"] = len(only)
+    if only:
+        print("NOTE model-drift property=C01: %d screen(s) satisfy every clause of C01 but are not what Encoding.tla computes (first at '%s'); "
+              "the transcription of the encoder needs updating" % (len(only), only[0][1]))
     if ok and not bad:
-        from harness.tracecheck import selftest
-
         def corrupt(t):
             t["got"]["ids"][0][0] += 1
             return "one logged treatment id incremented"
-        selftest(ctx, "TraceEncoding", ok[0], corrupt, decide="Decide", next_="TNext", init="TInit",
-                 constants={"Names": {0}, "Doses": {0}, "Zero": ZERO, "Arity": 1, "NRows": 1, "Ctls": {0}, "Mode": "treat", "WithSub": False, "Export": False})
+        selftest(ctx, "TraceEncoding", ok[0], corrupt, decide="Decide", next_="TNext", init="TInit", constants=dict(consts, Strict=False))
     if ok:
         ctx.sample({"code_to_spec": ok[0]})
 
 
 def replay(ctx, rp):
-    if rp["kind"] == "case":
-        msg = _replay_case(ctx, rp["case"], rp["names"], rp["doses"])
-        if msg:
-            ctx.violation("replay: " + msg, rp)
-    else:
-        _decide(ctx, [rp["trace"]])
+    _decide(ctx, [rp["trace"]])
